@@ -1288,7 +1288,7 @@ class SArr:
                     d = tdims[off + j]
                     out.append(z3.IntVal(0) if bc[j] else z3.simplify(ix[d] - plan[d][1]))
                 return out
-            velem, vn = val.elem, val.nan
+            velem, vn = self._rhs_before_store(val)
             nn = None
             if vn is not None or oldnan is not None:
                 nn = lambda *ix: z3.If(inregion(ix), vn(*vix(ix)) if vn else z3.BoolVal(False), oldnan(*ix) if oldnan else z3.BoolVal(False))
@@ -1302,6 +1302,39 @@ class SArr:
             v = conv(ve)
             self._store(lambda *ix: z3.If(inregion(ix), v, old(*ix)),
                         (lambda *ix: z3.If(inregion(ix), z3.BoolVal(False), oldnan(*ix))) if oldnan is not None else None)
+
+    def _rhs_before_store(self, val):
+        """numpy evaluates the right-hand side before it assigns.  Element closures are lazy, and a value computed from a view of
+        the target (X[:, i] = X[:, i] / env) would read the target AFTER the store.  If evaluating the value touches the target's
+        buffer, the value is frozen now: its element term at fresh index variables, instantiated by substitution later."""
+        root = self
+        while root.view_of is not None and getattr(root, 'view_plan', None) is not None:
+            root = root.view_of
+        touched = [False]
+        orig_e, orig_n = root.elem, root.nan
+
+        def spy_e(*ix):
+            touched[0] = True
+            return orig_e(*ix)
+        spy_n = None
+        if orig_n is not None:
+            def spy_n(*ix):
+                touched[0] = True
+                return orig_n(*ix)
+        qs = [z3.Int('rhsq%d_%d' % (next(_buf_ids), d)) for d in range(val.ndim)]
+        root.elem, root.nan = spy_e, spy_n
+        try:
+            te = val.elem(*qs)
+            tn = val.nan(*qs) if val.nan is not None else None
+        finally:
+            root.elem, root.nan = orig_e, orig_n
+            _EPOCH[0] += 1        # element terms memoised while the spy was installed are dropped
+        if not touched[0]:
+            return val.elem, val.nan
+
+        def inst(t):
+            return lambda *ix: z3.substitute(t, *[(q, lift(i)) for q, i in zip(qs, ix)])
+        return inst(te), (inst(tn) if tn is not None else None)
 
     def _store(self, newelem, newnan):
         """install new contents; for a basic-indexing view the update is written through to the base array"""
